@@ -150,6 +150,14 @@ def run(ctx: Ctx):
     ctx.notes["patterns"] = sum(len(p) for p in parts)
     ctx.notes["creation_outcomes"] = created
     ctx.notes["parses"] = npar
+    # how many creations the field-level grammar was asked about (mirror of PatternGrammar!Covered, for the counts only)
+    gram = {}
+    for p in parts:
+        for e in p:
+            if len(e["pattern"]) != 1 and not (e["type"] in ("LocalDateTime", "Instant") and 108 in e["pattern"]) and e["created"] in ("ok", "InvalidPatternError"):
+                k = e["type"] + (":accepted" if e["created"] == "ok" else ":rejected")
+                gram[k] = gram.get(k, 0) + 1
+    ctx.notes["creations_compared_with_the_grammar"] = gram
     ctx.notes["parse_outcomes"] = {}
     for p in parts:
         for e in p:
